@@ -83,7 +83,7 @@ def run(res, args):
     res.rule = ("the built rtcmlogger binary: stdin fed through a pipe (empty, 1 B, 8095, 8096, 8097, 20 000, 100 000 random bytes, "
                 "RTCM streams) with chunk sizes 1..65536 and pauses 0/1/5 ms, stdout captured, the day's record file read after the "
                 "process has exited; every case repeated to sample the exit race; plus the repository's start() in-process (go test "
-                "-overlay; newLogWriter replaced) with inputs up to 1.2 MB and a record writer that stalls (a slow disk: the "
+                "-overlay; newLogWriter replaced) built with -race, with inputs up to 1.5 MB, a record writer that stalls, and input that keeps arriving for more than two seconds (a slow disk: the "
                 "recorder blocks in Write while the copy loop runs ahead); "
                 "non-trivial = at least 2 blocks of input")
     res.assumptions = ["runs are kept away from local midnight (the daily writer's rotation is out of scope)",
@@ -140,7 +140,7 @@ def run(res, args):
             res.sample(dict(case, stdout_bytes=len(out), record_bytes=len(rec)))
     # the same program in-process with a record writer that stalls (a slow disk): the recorder goroutine blocks in
     # Write while the copy loop runs ahead; os.Stdin/os.Stdout are pipes; start() is the repository's
-    okt, outt, tbin = common.build_app_test("rtcmlogger", rewrite=("main.go", "func newLogWriter(", "func newLogWriterRepo("))
+    okt, outt, tbin = common.build_app_test("rtcmlogger", rewrite=("main.go", "func newLogWriter(", "func newLogWriterRepo("), race=True)
     if not okt:
         res.corr_ok = False
         res.corr_notes.append("building the rtcmlogger overlay test failed (slow-disk schedules not run): " + (outt or "")[-2500:])
@@ -156,10 +156,16 @@ def run(res, args):
         cases.append("logger %d %d %d %d %d %d" % (size, chunk, stall_call, stall_ms, each_us, rng.getrandbits(31)))
     cases.append("logger 1200000 65536 1 600 0 7")
     cases.append("logger 700000 8096 2 400 0 8")
+    # input that keeps arriving for more than two seconds (anything the program does on a timer happens while data flows)
+    cases.append("logger 1500000 4096 0 0 0 9 6000")
+    cases.append("logger 600000 8096 0 0 0 10 30000")
     obs, e = common.run_app_test(tbin, cases, "C16", shards=4)
     if e or len(obs) != len(cases):
-        res.corr_ok = False
-        res.corr_notes.append("rtcmlogger overlay run failed: %s" % e)
+        if e and ("DATA RACE" in e or "race detected" in e):
+            res.add_violation(dict(error=e[-2500:], cases=cases[-4:]), "data race inside rtcmlogger's start() (race-enabled in-process run)")
+        else:
+            res.corr_ok = False
+            res.corr_notes.append("rtcmlogger overlay run failed: %s" % e)
     else:
         for c, o in zip(cases, obs):
             res.evaluations += 1
